@@ -224,7 +224,31 @@ def tyg_weak(ctx, prog):
 for _f, _id in ((wmc_scope, "C20.WMC-scope"), (guard_lookup, "C20.GUARD-lookup"), (tyg_weak, "C20.TYG-weak")):
     _f.rule_id = _id
 
-RULES = [wmc_scope, guard_lookup, tyg_weak]
+def data_upgrade(ctx, prog, R="C20.DATA-upgrade"):
+    ctx.rule(R, "a table entry is found as long as the node is referenced: WeakIncr::upgrade is the plain Weak upgrade "
+                "(no filtering on validity or anything else)")
+    from .cfg import DefUse as _DU
+    from .expr import expr as _e, show as _s
+    from .facts import Place as _P
+    F = ctx.need_fn(R, "incremental::incr::WeakIncr::<T>::upgrade")
+    if F is None:
+        return
+    du = _DU(F)
+    ret = _e(F, _P({"local": 0, "proj": []}), du)
+    calls = sorted({q.short_path(t.callee) for G in prog.with_closures(F) for t in G.calls()})
+    ctx.site(R, F, "returns %s; calls %s" % (_s(ret)[:80], calls))
+    okc = all(any(k in c for k in ("Weak<T, A>::upgrade", "Weak::upgrade", "Option<T>::map", "Option::map", "From", "from", "Incr")) for c in calls)
+    if ret[0] == "call" and ret[1].endswith("Option::map") and okc:
+        ctx.ok(R, "upgrade")
+    else:
+        ctx.fail(R, "upgrade", "WeakIncr::upgrade is no longer `self.0.upgrade().map(Incr::from)` (returns %s, calls %s): a "
+                 "node that is still referenced can be reported as gone, so an equal key gets a second node"
+                 % (_s(ret)[:80], calls), fn=F)
+
+
+data_upgrade.rule_id = "C20.DATA-upgrade"
+
+RULES = [wmc_scope, guard_lookup, tyg_weak, data_upgrade]
 
 # control signature of the bookkeeping effects this property depends on (rules/ctrlsig.py)
 from .ctrlsig import make_rule as _ctrl_rule  # noqa: E402
